@@ -28,6 +28,8 @@ pub struct AsyncPool<'a> {
     handle: AsyncHandle<'a>,
     iface_info: ReceiveIfaceInfo,
     pending: VecDeque<AsyncTransfer>,
+    #[cfg(cameleon_verif)]
+    verif_pending: VecDeque<super::verif::VerifTransfer>,
 }
 
 impl<'a> AsyncPool<'a> {
@@ -39,11 +41,27 @@ impl<'a> AsyncPool<'a> {
             handle,
             iface_info,
             pending: VecDeque::new(),
+            #[cfg(cameleon_verif)]
+            verif_pending: VecDeque::new(),
         }
     }
 
     #[doc(hidden)]
     pub fn submit(&mut self, buf: &mut [u8]) -> Result<()> {
+        #[cfg(cameleon_verif)]
+        {
+            let id = self
+                .handle
+                .0
+                .submit_bulk(self.iface_info.bulk_in_ep, buf.len())?;
+            self.verif_pending.push_back(super::verif::VerifTransfer {
+                id,
+                ptr: buf.as_mut_ptr(),
+                len: buf.len(),
+            });
+            return Ok(());
+        }
+        #[cfg(not(cameleon_verif))]
         // Safety: If transfer is submitted, it is pushed onto `pending` where it will be
         // dropped before `device` is freed.
         unsafe {
@@ -60,6 +78,29 @@ impl<'a> AsyncPool<'a> {
     ///
     /// Panics if there is no pending transfer.
     pub fn poll(&mut self, timeout: Duration) -> Result<usize> {
+        #[cfg(cameleon_verif)]
+        {
+            debug_assert!(!self.verif_pending.is_empty());
+            let next = self.verif_pending.front().unwrap();
+            return match self.handle.0.poll_bulk(next.id, timeout) {
+                super::verif::VerifPoll::Pending => Err(LibUsbError::Timeout.into()),
+                super::verif::VerifPoll::Completed(res) => {
+                    let transfer = self.verif_pending.pop_front().unwrap();
+                    let data = res?;
+                    if data.len() > transfer.len {
+                        return Err(LibUsbError::Overflow.into());
+                    }
+                    // Safety: same contract as the libusb path, the buffer passed to `submit`
+                    // outlives the transfer.
+                    unsafe {
+                        std::ptr::copy_nonoverlapping(data.as_ptr(), transfer.ptr, data.len());
+                    }
+                    Ok(data.len())
+                }
+            };
+        }
+        #[cfg(not(cameleon_verif))]
+        {
         debug_assert!(!self.pending.is_empty());
         let next = self.pending.front().unwrap();
         if poll_completed(self.handle.context(), timeout, next.completed_flag())? {
@@ -68,10 +109,15 @@ impl<'a> AsyncPool<'a> {
         } else {
             Err(LibUsbError::Timeout.into())
         }
+        }
     }
 
     #[doc(hidden)]
     pub fn cancel_all(&mut self) {
+        #[cfg(cameleon_verif)]
+        for transfer in self.verif_pending.iter().rev() {
+            self.handle.0.cancel_bulk(transfer.id);
+        }
         // Cancel in reverse order to avoid a race condition in which one
         // transfer is cancelled but another submitted later makes its way onto
         // the bus.
@@ -83,6 +129,11 @@ impl<'a> AsyncPool<'a> {
     /// Returns the number of async transfers pending.
     #[doc(hidden)]
     pub fn pending(&self) -> usize {
+        #[cfg(cameleon_verif)]
+        {
+            return self.verif_pending.len();
+        }
+        #[cfg(not(cameleon_verif))]
         self.pending.len()
     }
 
@@ -298,6 +349,12 @@ cfg_if::cfg_if! {
 
         fn get_handle(channel: &ReceiveChannel) -> AsyncHandle {
             AsyncHandle(channel.device_handle.handle.lock().unwrap())
+        }
+    } else if #[cfg(cameleon_verif)] {
+        type AsyncHandle<'a> = &'a super::verif::LibUsbDeviceHandle;
+
+        fn get_handle(channel: &ReceiveChannel) -> AsyncHandle {
+            &channel.device_handle
         }
     } else {
         type AsyncHandle<'a> = &'a RusbDeviceHandle;
